@@ -2,6 +2,7 @@ SPECIFICATION Spec
 CONSTANTS Dev = "tcp"
  Fl = "sync"
  R = 3
+ Slack = 1
  MaxConn = 2
  MaxTime = 11
 INVARIANT MadeOncePerConnection
